@@ -1,6 +1,7 @@
 import Driver.Util
 import Driver.OpsGen
 import DoviModel.Model.XmlSpec
+import DoviModel.Proofs.XmlMoreProof
 /-! `genxml <cfg> <l254>`: the XML generation path on an integer config (shots in document order);
 `xmlenc <fn> <args…>`: the documented integer encodings on scaled decimals (value · 10^6). -/
 namespace Driver.GenXmlOps
@@ -24,6 +25,11 @@ def run : List String → String
     (match ints a with
      | [lift, gain, gamma] => s!"ok {slope12 lift gain},{offset12 lift gain},{power12 gamma}"
      | _ => "bad-op")
+  | ["xmlenc", "l6light", a] => "ok " ++ natsOut ((ints a).map XmlMore.l6Light)
+  | ["xmlenc", "l6minlum", a] => "ok " ++ natsOut ((ints a).map XmlMore.l6MinLum)
+  | ["xmlenc", "pqnits", a] => "ok " ++ natsOut ((ints a).map fun v => XmlMore.pqOfNits v.toNat)
+  | ["xmlenc", "pqminlum", a] => "ok " ++ natsOut ((ints a).map fun v => XmlMore.pqOfMinLum v.toNat)
+  | ["xmlenc", "srcminpq", a] => "ok " ++ natsOut ((ints a).map XmlMore.sourceMinPqOfXml)
   | ["xmlenc", "lin", a] => "ok " ++ natsOut ((ints a).map lin12)
   | ["xmlenc", "vec", a] => "ok " ++ natsOut ((ints a).map vec8)
   | ["xmlenc", "l3", a] => "ok " ++ natsOut ((ints a).map l3off)
